@@ -3,6 +3,7 @@
 package c17
 
 import (
+	"errors"
 	"fmt"
 	"io"
 
@@ -62,13 +63,45 @@ func render(ops []op) []string {
 	return s
 }
 
+// pickyCore accepts entries like the core it stands beside and fails to write every other one.
+type pickyCore struct {
+	en zapcore.LevelEnabler
+	n  int
+}
+
+func (c *pickyCore) Enabled(l zapcore.Level) bool      { return c.en.Enabled(l) }
+func (c *pickyCore) With([]zapcore.Field) zapcore.Core { return c }
+func (c *pickyCore) Check(e zapcore.Entry, ce *zapcore.CheckedEntry) *zapcore.CheckedEntry {
+	if c.Enabled(e.Level) {
+		return ce.AddCore(e, c)
+	}
+	return ce
+}
+func (c *pickyCore) Write(zapcore.Entry, []zapcore.Field) error {
+	c.n++
+	if c.n%2 == 0 {
+		return errors.New("c17 destination refuses this line")
+	}
+	return nil
+}
+func (c *pickyCore) Sync() error { return nil }
+
 // runProgram executes ops against a real zapio.Writer; it returns a violation message or "".
 func runProgram(ops []op, level zapcore.Level, toggles bool) string {
 	al := zap.NewAtomicLevelAt(zapcore.DebugLevel)
 	// the core enables every level (also custom ones below debug or above fatal) unless the
 	// program has switched it off
 	core, logs := observer.New(zap.LevelEnablerFunc(func(l zapcore.Level) bool { return al.Level() <= zapcore.DebugLevel }))
-	w := &zapio.Writer{Log: zap.New(core), Level: level}
+	var logCore zapcore.Core = core
+	if len(ops)%3 == 1 {
+		// the logger fans out: ahead of the recording core sits a destination that refuses every other
+		// line; what the recording core receives must not depend on that
+		logCore = zapcore.NewTee(&pickyCore{en: core}, core)
+	}
+	w := &zapio.Writer{Log: zap.New(logCore, zap.ErrorOutput(zapcore.AddSync(io.Discard))), Level: level}
+	// in every second program the recorded messages are collected in batches, one at every Sync
+	batched := len(ops)%2 == 1 && !toggles
+	var batches [][]observer.LoggedEntry
 	// other users of the shared buffer pool: a second writer with a pending partial line and loggers
 	// over encoder-backed cores
 	other := &zapio.Writer{Log: zap.NewNop(), Level: zapcore.InfoLevel}
@@ -119,6 +152,9 @@ func runProgram(ops []op, level zapcore.Level, toggles bool) string {
 			if enabled {
 				m.sync()
 			}
+			if batched {
+				batches = append(batches, logs.TakeAll())
+			}
 			seg++
 		case 'L':
 			_, _ = other.Write([]byte("pending partial of another writer"))
@@ -147,6 +183,13 @@ func runProgram(ops []op, level zapcore.Level, toggles bool) string {
 		return "Close logged an entry while the level is disabled"
 	}
 	got := logs.All()
+	if batched {
+		var all []observer.LoggedEntry
+		for _, b := range batches {
+			all = append(all, b...)
+		}
+		got = append(all, got...)
+	}
 	if toggles && sawDisabled {
 		// with disabled phases "nothing while disabled", the return values and the split-point role
 		// of Sync are judged
